@@ -156,7 +156,7 @@ def make_settings(algo, seed, logs, **params):
 
 
 def run_algo(run: Run, algo: str, kind: str, seed: int, n_iter: int, logs: dict, with_path: bool, *, pre=None,
-             model_json=None, record=False, keep_settings=None):
+             model_json=None, record=False, keep_settings=None, extra=None):
     """One seeded public call in a fresh working directory.  Returns dict(digest, rng, events?, settings?).
     fit: fresh model of `kind` on the cohort;  personalize / simulate: model loaded from `model_json`."""
     from harness import synth
@@ -175,6 +175,8 @@ def run_algo(run: Run, algo: str, kind: str, seed: int, n_iter: int, logs: dict,
                 params["n_iter"] = n_iter
             if algo == "simulate":
                 params.update(features=[c for c in df.columns if c.startswith("Y")], visit_parameters=copy.deepcopy(VISITS))
+            if extra:
+                params.update(copy.deepcopy(extra))
             settings = make_settings(algo, seed, lk, **params)
             snap = copy.deepcopy(settings.parameters)
             rec = Recorder() if record else contextlib.nullcontext()
@@ -462,6 +464,33 @@ def metamorphic(run: Run, thorough: bool):
                 check_equal(run, ref, got, desc, name)
     run.sample(dict(kind="metamorphic-fit", model=kinds_fit[0], seed=seeds[0], n_iter=n_iter,
                     variants=["repeat", "rng-consumed-before", "other-model-fitted-before", "logging grid"]))
+
+    # ---- the same with a non-default schedule in force (annealing on): whatever the algorithm does per iteration besides
+    # sampling and maximising (temperature updates, ...) must not depend on whether a logs manager exists
+    ann = dict(annealing=dict(do_annealing=True, n_plateau=3, initial_temperature=5.0))
+    n_ann = 8
+    for kind in kinds_fit[:1] + (kinds_fit[1:2] if thorough else []):
+        desc0 = dict(algo="mcmc_saem", kind=kind, seed=seeds[0], n_iter=n_ann, **ann)
+        try:
+            ref = run_algo(run, "mcmc_saem", kind, seeds[0], n_ann, {}, False, extra=ann)
+        except Exception as e:
+            run.fail(f"fit:abort:{type(e).__name__}", f"fit with annealing raised {type(e).__name__}: {e}", desc0)
+            continue
+        for logs, with_path in [({}, True), (dict(print_periodicity=2), False), (dict(save_periodicity=2, plot_periodicity=4), True),
+                                (dict(print_periodicity=1, save_periodicity=1, plot_patient_periodicity=4), True)]:
+            desc = dict(desc0, variant="logging+annealing", logs=logs, path=("tmp" if with_path else None))
+            run.case(("fit-annealing", kind, tuple(sorted(logs.items())), with_path), nontrivial=True)
+            try:
+                got = run_algo(run, "mcmc_saem", kind, seeds[0], n_ann, logs, with_path, extra=ann)
+            except Refused:
+                run.count("fit_variants", "refused-at-construction")
+                continue
+            except Exception as e:
+                run.fail(f"logging:abort:{type(e).__name__}", f"accepted configuration aborts the fit: {type(e).__name__}: {e}", desc,
+                         expected="run finishes", observed=f"{type(e).__name__}: {e}")
+                continue
+            run.count("fit_variants", "logging+annealing")
+            check_equal(run, ref, got, desc, "logging")
 
     # ---- personalize / simulate on a saved model (so that the model's own history is constant: that part is C13)
     wd = tmpdir()
